@@ -51,10 +51,18 @@ impl<V, G> HnswIndex<V, G> {
     }
 
     fn random_level(&self) -> u8 {
+        #[cfg(nervusdb_verif)]
+        if let Some(level) = verif::next_forced_level() {
+            verif::record_level(level);
+            return level;
+        }
         let mut rng = rand::thread_rng();
         let ml = 1.0 / (self.params.m as f64).ln();
         let r: f64 = rng.r#gen();
-        ((-r.ln() * ml).floor() as u8).min(16) // Cap at 16 layers for safety
+        let level = ((-r.ln() * ml).floor() as u8).min(16); // Cap at 16 layers for safety
+        #[cfg(nervusdb_verif)]
+        verif::record_level(level);
+        level
     }
 
     #[allow(clippy::type_complexity)]
@@ -279,5 +287,42 @@ impl<V, G> HnswIndex<V, G> {
             }
         }
         Ok(results)
+    }
+}
+
+/// Verification instrumentation (only with `--cfg nervusdb_verif`): the levels drawn by
+/// `random_level` are recorded per thread, and a queue of levels can be supplied to be
+/// used instead of the RNG (each still capped at 16 like a drawn level).
+#[cfg(nervusdb_verif)]
+pub mod verif {
+    use std::cell::RefCell;
+    use std::collections::VecDeque;
+
+    thread_local! {
+        static FORCED: RefCell<VecDeque<u8>> = const { RefCell::new(VecDeque::new()) };
+        static DRAWN: RefCell<Vec<u8>> = const { RefCell::new(Vec::new()) };
+    }
+
+    /// Levels to be used by the next `random_level` calls on this thread (FIFO).
+    pub fn force_levels(levels: &[u8]) {
+        FORCED.with(|q| q.borrow_mut().extend(levels.iter().map(|l| (*l).min(16))));
+    }
+
+    /// Drops the forced levels not yet consumed on this thread.
+    pub fn clear_forced_levels() {
+        FORCED.with(|q| q.borrow_mut().clear());
+    }
+
+    /// Returns and clears the levels used by `random_level` on this thread so far.
+    pub fn take_levels() -> Vec<u8> {
+        DRAWN.with(|d| std::mem::take(&mut *d.borrow_mut()))
+    }
+
+    pub(super) fn next_forced_level() -> Option<u8> {
+        FORCED.with(|q| q.borrow_mut().pop_front())
+    }
+
+    pub(super) fn record_level(level: u8) {
+        DRAWN.with(|d| d.borrow_mut().push(level));
     }
 }
